@@ -14,6 +14,10 @@ import BumpProof.Lemmas.CtrlEx
 import BumpProof.Lemmas.CtrlState
 import BumpProof.Lemmas.CtrlPrep
 import BumpProof.Lemmas.CtrlCommit
+import BumpProof.Lemmas.CtrlMem
+
+set_option linter.unusedSimpArgs false
+set_option linter.unusedVariables false
 
 namespace C15
 open Arena Rs Ctrl Lemmas
@@ -210,20 +214,9 @@ def commitAddr (cfg : Cfg) (ptr len cap esize : Nat) (rev : Bool) : Nat :=
   if rev then (if cfg.up then ptr - cap * esize else ptr - len * esize)
   else (if cfg.up then ptr else ptr + cap * esize - len * esize)
 
-/-- the observable effect of "some bytes were copied, then the position of the current chunk was set to `q`" -/
-theorem setCurPos_after_copy (cfg : Cfg) {s s1 : State} {i : Nat} {c : Chunk} (hs : SameShape s s1)
-    (hc : CurChunk s i c) (q : Nat) :
-    curPos cfg (setCurPos s1 q) = q ∧ (setCurPos s1 q).cur = s.cur ∧ (setCurPos s1 q).live = s.live ∧
-    ∀ j : Nat, j ≠ i → ((setCurPos s1 q).chunks[j]?).map (·.pos) = (s.chunks[j]?).map (·.pos) := by
-  obtain ⟨c1, hc1, _, _, _⟩ := hs.curChunk hc
-  refine ⟨(hc1.setCurPos q).curPos cfg, ?_, ?_, fun j hj => ?_⟩
-  · rw [setCurPos_cur]; exact hs.cur
-  · rw [setCurPos_live]; exact hs.live
-  · rw [setCurPos_chunk hc1.cur, setPos_get_other (Ne.symm hj)]
-    have := hs.chunks j
-    cases h1 : s1.chunks[j]? <;> cases h2 : s.chunks[j]? <;> rw [h1, h2] at this <;>
-      simp only [Option.map_some, Option.map_none, Option.some.injEq, Prod.mk.injEq, reduceCtorEq] at this ⊢
-    exact this.2.2
+/-- where the collection wrote its `len` elements: at the start of the area (forward collections) or
+    just below its end `ptr` (rev collections) -/
+def commitSrc (ptr len esize : Nat) (rev : Bool) : Nat := if rev then ptr - len * esize else ptr
 
 /-- `allocate_prepared_slice(_rev)`: the slice ends up at `commitAddr`, and apart from the bytes that
     are moved there the only change is the position of the current chunk, which becomes `commitPos`:
@@ -235,7 +228,10 @@ theorem allocatePreparedSlice_effect (cfg : Cfg) (s s' : State) (ptr len cap esi
     (hfit : if rev then cap * esize ≤ ptr ∧ ptr + 16 ≤ 2 ^ 64 else ptr + cap * esize + 16 ≤ 2 ^ 64)
     (hr : allocatePreparedSlice cfg s ptr len cap esize ealign rev = .ok (s', a)) :
     a = commitAddr cfg ptr len cap esize rev ∧
-    ∃ s1, SameShape s s1 ∧ s' = setCurPos s1 (commitPos cfg s.minAlign a (len * esize)) := by
+    ∃ s1, SameShape s s1 ∧
+      ((s1 = s ∧ a = commitSrc ptr len esize rev) ∨
+        copyBytes cfg s (commitSrc ptr len esize rev) a (len * esize) false = .ok s1) ∧
+      s' = setCurPos s1 (commitPos cfg s.minAlign a (len * esize)) := by
   have hle : len * esize ≤ cap * esize := Nat.mul_le_mul_right esize hlen
   have hd1 : ealign ∣ len * esize := Nat.dvd_trans hes (Nat.dvd_mul_left esize len)
   have hd2 : ealign ∣ cap * esize := Nat.dvd_trans hes (Nat.dvd_mul_left esize cap)
@@ -259,14 +255,14 @@ theorem allocatePreparedSlice_effect (cfg : Cfg) (s s' : State) (ptr len cap esi
         rw [setPosAlignFrom_down hup hm1 hea hdvd (by omega)] at hr
         simp only [R_ok_bind, R_pure_eq, Except.ok.injEq, Prod.mk.injEq] at hr
         obtain ⟨rfl, rfl⟩ := hr
-        exact ⟨rfl, s1, hs, by rw [hs.minAlign]⟩
+        exact ⟨rfl, s1, hs, Or.inr hcb, by rw [hs.minAlign]⟩
     · -- forward, upwards: nothing to copy
       simp only [hup, Bool.not_false, ↓reduceIte] at hr ⊢
       have hdvd : ealign ∣ ptr + len * esize := (Nat.dvd_add_right hp).2 hd1
       rw [setPosAlignFrom_up hup hm hea hdvd (by omega)] at hr
       simp only [R_ok_bind, R_pure_eq, Except.ok.injEq, Prod.mk.injEq] at hr
       obtain ⟨rfl, rfl⟩ := hr
-      exact ⟨rfl, s, SameShape.refl s, rfl⟩
+      exact ⟨rfl, s, SameShape.refl s, Or.inl ⟨rfl, rfl⟩, rfl⟩
   · simp only [↓reduceIte] at hfit
     cases hup : cfg.up
     · -- rev, downwards: nothing to copy
@@ -275,7 +271,7 @@ theorem allocatePreparedSlice_effect (cfg : Cfg) (s s' : State) (ptr len cap esi
       rw [setPosAlignFrom_down hup hm hea hdvd (by omega)] at hr
       simp only [R_ok_bind, R_pure_eq, Except.ok.injEq, Prod.mk.injEq] at hr
       obtain ⟨rfl, rfl⟩ := hr
-      exact ⟨rfl, s, SameShape.refl s, rfl⟩
+      exact ⟨rfl, s, SameShape.refl s, Or.inl ⟨rfl, rfl⟩, rfl⟩
     · -- rev, upwards: copy to the start of the area
       simp only [hup, Bool.not_true, Bool.false_eq_true, ↓reduceIte] at hr ⊢
       generalize hcb : copyBytes cfg s _ _ _ false = x at hr
@@ -290,7 +286,7 @@ theorem allocatePreparedSlice_effect (cfg : Cfg) (s s' : State) (ptr len cap esi
         rw [setPosAlignFrom_up hup hm1 hea hdvd (by omega)] at hr
         simp only [R_ok_bind, R_pure_eq, Except.ok.injEq, Prod.mk.injEq] at hr
         obtain ⟨rfl, rfl⟩ := hr
-        exact ⟨rfl, s1, hs, by rw [hs.minAlign]⟩
+        exact ⟨rfl, s1, hs, Or.inr hcb, by rw [hs.minAlign]⟩
 
 /-- spelled out: after finalising, the position of the current chunk is `commitPos`, i.e. it passed the
     `len * esize` bytes of contents and less than `minAlign` bytes of padding; every other chunk keeps
@@ -303,9 +299,92 @@ theorem allocatePreparedSlice_position (cfg : Cfg) (s s' : State) (ptr len cap e
     (hr : allocatePreparedSlice cfg s ptr len cap esize ealign rev = .ok (s', a)) :
     curPos cfg s' = commitPos cfg s.minAlign a (len * esize) ∧ s'.cur = s.cur ∧ s'.live = s.live ∧
     ∀ j : Nat, j ≠ i → (s'.chunks[j]?).map (·.pos) = (s.chunks[j]?).map (·.pos) := by
-  obtain ⟨_, s1, hs, rfl⟩ :=
+  obtain ⟨_, s1, hs, _, rfl⟩ :=
     allocatePreparedSlice_effect cfg s s' ptr len cap esize ealign a rev i c hcur hget hm hea hes hp hlen hfit hr
   exact setCurPos_after_copy cfg hs ⟨hcur, hget⟩ _
+
+/-- the finalised slice holds exactly the bytes the collection wrote (`MemOk`: the chunks are disjoint
+    address ranges carrying `size` bytes each) — in all four direction combinations, i.e. also when the
+    elements had to be moved to the other end of the prepared area -/
+theorem allocatePreparedSlice_contents (cfg : Cfg) (s s' : State) (ptr len cap esize ealign a : Nat) (rev : Bool)
+    (i : Nat) (c : Chunk) (hcur : s.cur = .chunk i) (hget : s.chunks[i]? = some c)
+    (hm : MinAlignOk s.minAlign) (hea : P2 ealign) (hes : ealign ∣ esize) (hp : ealign ∣ ptr)
+    (hlen : len ≤ cap)
+    (hfit : if rev then cap * esize ≤ ptr ∧ ptr + 16 ≤ 2 ^ 64 else ptr + cap * esize + 16 ≤ 2 ^ 64)
+    (hmem : MemOk s)
+    (hr : allocatePreparedSlice cfg s ptr len cap esize ealign rev = .ok (s', a)) :
+    ∀ k, k < len * esize → readByte s' (a + k) = readByte s (commitSrc ptr len esize rev + k) := by
+  obtain ⟨_, s1, hs, hcopy, rfl⟩ :=
+    allocatePreparedSlice_effect cfg s s' ptr len cap esize ealign a rev i c hcur hget hm hea hes hp hlen hfit hr
+  intro k hk
+  rw [readByte_setCurPos]
+  rcases hcopy with ⟨rfl, ha⟩ | hcb
+  · rw [ha]
+  · rw [copyBytes_read hmem hcb, if_pos ⟨by omega, by omega⟩]
+    congr 1
+    omega
+
+/-- In a history: finalising the collection (`into_slice` & co.) returns a block of exactly
+    `len * esize` bytes holding the elements that were written, and the position of the current
+    chunk ends up at `commitPos`: the contents plus less than `minAlign` bytes of padding are consumed;
+    no other chunk moves. -/
+theorem step_commitSlice_effect (cfg : Cfg) (g g' : GState) (len : Nat) (o : Out) (p : Prepared)
+    (i : Nat) (c : Chunk) (hp : g.s.prepared = some p) (hcur : g.s.cur = .chunk i)
+    (hget : g.s.chunks[i]? = some c) (hm : MinAlignOk g.s.minAlign) (hea : P2 p.ealign)
+    (hes : p.ealign ∣ p.esize) (hptr : p.ealign ∣ (if p.rev then p.rend else p.rstart))
+    (hle : p.rstart ≤ p.rend) (hb : p.rend + 16 ≤ 2 ^ 64) (hmem : MemOk g.s)
+    (hr : stepCore cfg g (.commitSlice len) = .ok (g', o)) :
+    ∃ a, o = .block g.s.nextId a (len * p.esize) ∧
+      curPos cfg g'.s = commitPos cfg g.s.minAlign a (len * p.esize) ∧
+      g'.s.prepared = none ∧ g'.s.cur = g.s.cur ∧
+      (∀ j : Nat, j ≠ i → (g'.s.chunks[j]?).map (·.pos) = (g.s.chunks[j]?).map (·.pos)) ∧
+      (∀ k, k < len * p.esize →
+        readByte g'.s (a + k) = readByte g.s (commitSrc (if p.rev then p.rend else p.rstart) len p.esize p.rev + k)) := by
+  rw [stepCore] at hr
+  simp only [hp] at hr
+  by_cases hty : p.typed = true
+  · simp only [hty, Bool.not_true, Bool.false_eq_true, ↓reduceIte] at hr
+    by_cases hlen : len > (p.rend - p.rstart) / p.esize
+    · simp only [hlen, ↓reduceIte] at hr; cases hr
+    · simp only [hlen, ↓reduceIte] at hr
+      generalize hps : allocatePreparedSlice cfg _ _ len _ p.esize p.ealign p.rev = x at hr
+      cases x with
+      | error e => cases hr
+      | ok sa =>
+        obtain ⟨s1, a⟩ := sa
+        simp only [R_ok_bind, R_pure_eq, Except.ok.injEq, Prod.mk.injEq] at hr
+        obtain ⟨rfl, rfl⟩ := hr
+        have hcap : (p.rend - p.rstart) / p.esize * p.esize ≤ p.rend - p.rstart := Nat.div_mul_le_self _ _
+        have hfit : if p.rev then (p.rend - p.rstart) / p.esize * p.esize ≤ (if p.rev then p.rend else p.rstart) ∧
+              (if p.rev then p.rend else p.rstart) + 16 ≤ 2 ^ 64
+            else (if p.rev then p.rend else p.rstart) + (p.rend - p.rstart) / p.esize * p.esize + 16 ≤ 2 ^ 64 := by
+          cases p.rev
+          · simp only [Bool.false_eq_true, ↓reduceIte]; omega
+          · simp only [↓reduceIte]; omega
+        have hmem0 : MemOk { g.s with prepared := none } := ⟨hmem.disjoint, hmem.dataSize⟩
+        obtain ⟨h1, h2, h3, h4⟩ := allocatePreparedSlice_position cfg { g.s with prepared := none } s1 _ len _
+          p.esize p.ealign a p.rev i c hcur hget hm hea hes hptr (by omega) hfit hps
+        have h5 := allocatePreparedSlice_contents cfg { g.s with prepared := none } s1 _ len _
+          p.esize p.ealign a p.rev i c hcur hget hm hea hes hptr (by omega) hfit hmem0 hps
+        have hprep : s1.prepared = none := by
+          obtain ⟨_, s2, hs, _, rfl⟩ := allocatePreparedSlice_effect cfg { g.s with prepared := none } s1 _ len _
+            p.esize p.ealign a p.rev i c hcur hget hm hea hes hptr (by omega) hfit hps
+          unfold setCurPos
+          split
+          · exact hs.prepared
+          · exact hs.prepared
+        have hnid : s1.nextId = g.s.nextId := by
+          obtain ⟨_, s2, hs, _, rfl⟩ := allocatePreparedSlice_effect cfg { g.s with prepared := none } s1 _ len _
+            p.esize p.ealign a p.rev i c hcur hget hm hea hes hptr (by omega) hfit hps
+          unfold setCurPos
+          split
+          · exact hs.nextId
+          · exact hs.nextId
+        refine ⟨a, ?_, h1, hprep, h2, h4, h5⟩
+        show Out.block s1.nextId a (len * p.esize) = _
+        rw [hnid]
+  · simp only [hty, Bool.not_false, ↓reduceIte] at hr
+    cases hr
 
 /-- `allocate_prepared(_rev)` of the untyped interface: same law -/
 theorem allocatePrepared_effect (cfg : Cfg) (s s' : State) (size rstart rend a : Nat) (rev : Bool)
@@ -402,23 +481,14 @@ theorem allocatePreparedSlice_nocopy (cfg : Cfg) (s : State) (ptr len cap esize 
   · unfold commitAddr
     cases hup : cfg.up <;> rw [hup] at hdir <;> subst hdir <;> rfl
 
-/-- TARGET (not proved here): in the two remaining combinations the elements are moved by one
-    `ptr::copy`; the finalised slice then holds exactly the bytes that were written.  Needs the
-    read-after-write law of `copyBytes` (chunks pairwise disjoint, source and destination inside the
-    content range of the current chunk), which belongs to the memory lemmas. -/
-def allocatePreparedSlice_contents_target : Prop :=
-  ∀ (cfg : Cfg) (s s' : State) (ptr len cap esize ealign a : Nat) (rev : Bool),
-    (∀ (j k : Nat) (cj ck : Chunk), s.chunks[j]? = some cj → s.chunks[k]? = some ck → j ≠ k →
-      cj.base + cj.size ≤ ck.base ∨ ck.base + ck.size ≤ cj.base) →
-    allocatePreparedSlice cfg s ptr len cap esize ealign rev = .ok (s', a) →
-    ∀ k, k < len * esize →
-      readByte s' (a + k) = readByte s ((if rev then ptr - len * esize else ptr) + k)
-
 /-! ## Non-vacuity: the hypotheses hold on concrete states (`Lemmas/CtrlEx.lean`) -/
 
 /-- a prepare that has to move on to the second chunk (slow path) -/
 example : ∃ s' r, allocGeneric wCfg .range wState { size := 64, align := 8 } Hints.array Hints.array = .ok (s', .ok r) ∧
     s'.cur = .chunk 1 := ⟨_, _, rfl, rfl⟩
+
+example : ∃ g' o, stepCore wCfg ⟨wState, []⟩ (.prepare { size := 64, align := 8 }) = .ok (g', o) ∧ g'.s.cur = .chunk 1 :=
+  ⟨_, _, rfl, rfl⟩
 
 /-- a collection: created, filled, finalised / abandoned -/
 example : ∃ g1 o1 g2 o2 g3 o3, stepCore wCfg ⟨exUp, []⟩ (.prepareSlice 8 8 4 false) = .ok (g1, o1) ∧
@@ -442,6 +512,51 @@ example : allocatePreparedSlice wCfg exUp 0x10040 2 4 8 8 false =
     .ok (setCurPos exUp (commitPos wCfg 8 (commitAddr wCfg 0x10040 2 4 8 false) 16), commitAddr wCfg 0x10040 2 4 8 false) :=
   (allocatePreparedSlice_nocopy wCfg exUp 0x10040 2 4 8 8 false 0 rfl minAlign8 ⟨3, rfl⟩ ⟨1, rfl⟩ ⟨0x2008, by decide⟩
     rfl (by decide)).1
+
+theorem exDown_memOk : MemOk exDown := by
+  constructor
+  · intro j k cj ck hj hk hjk
+    have h1 : j < 1 := lt_length_of_get' hj
+    have h2 : k < 1 := lt_length_of_get' hk
+    omega
+  · intro j c hj
+    have h1 : j < 1 := lt_length_of_get' hj
+    have h0 : j = 0 := by omega
+    subst h0
+    cases hj
+    exact Array.size_replicate
+
+/-- downwards, forward: the 16 bytes written at 0x10080 are found at the returned address 0x100B0 -/
+example : ∃ s', allocatePreparedSlice dCfg exDown 0x10080 2 8 8 8 false = .ok (s', 0x100B0) ∧
+    ∀ k, k < 16 → readByte s' (0x100B0 + k) = readByte exDown (0x10080 + k) :=
+  ⟨_, rfl, allocatePreparedSlice_contents dCfg exDown _ 0x10080 2 8 8 8 0x100B0 false 0 exChunkDown rfl rfl minAlign8
+    ⟨3, rfl⟩ ⟨1, rfl⟩ ⟨0x2010, by decide⟩ (by decide) (by decide) exDown_memOk rfl⟩
+
+/-- the state after `prepare_slice_allocation::<u64>(4)` on `exUp`: the rest of the chunk is prepared -/
+def exPrepG : GState :=
+  ⟨{ exUp with prepared := some { rstart := 0x10040, rend := 0x10100, esize := 8, ealign := 8, typed := true, rev := false } }, []⟩
+
+example : stepCore wCfg ⟨exUp, []⟩ (.prepareSlice 8 8 4 false) = .ok (exPrepG, .block 0 0x10040 24) := rfl
+
+theorem exPrepG_memOk : MemOk exPrepG.s := by
+  constructor
+  · intro j k cj ck hj hk hjk
+    have h1 : j < 1 := lt_length_of_get' hj
+    have h2 : k < 1 := lt_length_of_get' hk
+    omega
+  · intro j c hj
+    have h1 : j < 1 := lt_length_of_get' hj
+    have h0 : j = 0 := by omega
+    subst h0
+    cases hj
+    exact Array.size_replicate
+
+example : ∃ g' o, stepCore wCfg exPrepG (.commitSlice 3) = .ok (g', o) ∧
+    ∃ a, o = .block 1 a 24 ∧ curPos wCfg g'.s = commitPos wCfg 8 a 24 :=
+  ⟨_, _, rfl,
+    let ⟨a, h1, h2, _⟩ := step_commitSlice_effect wCfg exPrepG _ 3 _ _ 0 exChunkUp rfl rfl rfl minAlign8 ⟨3, rfl⟩ ⟨1, rfl⟩
+      ⟨0x2008, by decide⟩ (by decide) (by decide) exPrepG_memOk rfl
+    ⟨a, h1, h2⟩⟩
 
 example : ∃ s', allocatePrepared wCfg exUp 16 0x10040 0x10100 false = .ok (s', 0x10040) := ⟨_, rfl⟩
 
